@@ -102,6 +102,12 @@ func nameVariants(n string) []string {
 		out = append(out, lo[:len(lo)-1], lo[1:])
 	}
 	out = append(out, lo+"x", "x"+lo, lo+" ")
+	// runes that Unicode case folding maps onto / away from ASCII letters (U+0131, U+017F, U+212A)
+	for _, r := range [][2]string{{"i", "\u0131"}, {"s", "\u017f"}, {"k", "\u212a"}, {"I", "\u0130"}} {
+		if strings.Contains(lo, r[0]) {
+			out = append(out, strings.Replace(lo, r[0], r[1], 1), strings.Replace(up, strings.ToUpper(r[0]), r[1], 1))
+		}
+	}
 	return out
 }
 
@@ -153,10 +159,10 @@ func init() {
 			return nil
 		},
 		Phases: []fw.Phase{
-			{Name: "trie-H1-bytes", Space: "H1^<=5 x 5 contexts", Share: 4,
-				Run: func(w *fw.W) { w.Trie(alpha.H1, 0, 5) }, Eval: evalC07},
-			{Name: "trie-H1core-deep", Space: "H1core^6..7 x 5 contexts", Share: 4, ThoroughOnly: true,
-				Run: func(w *fw.W) { w.Trie(alpha.H1core, 6, 7) }, Eval: evalC07},
+			{Name: "trie-H1-bytes", Space: "H1^<=4 (quick) / <=5 (thorough) x 5 contexts", Share: 4,
+				Run: func(w *fw.W) { w.Trie(alpha.H1, 0, w.Pick(4, 5)) }, Eval: evalC07},
+			{Name: "trie-H1core-deep", Space: "H1core^5 (quick) / ^5..7 (thorough) x 5 contexts", Share: 4,
+				Run: func(w *fw.W) { w.Trie(alpha.H1core, 5, w.Pick(5, 7)) }, Eval: evalC07},
 			{Name: "trie-H2-fragments", Space: "H2^<=4 (quick) / <=5 (thorough) x 5 contexts", Share: 3,
 				Run: func(w *fw.W) { w.Trie(alpha.H2, 1, w.Pick(4, 5)) }, Eval: evalC07},
 			{Name: "corpus-cuts", Space: "every prefix, suffix and prefix+quote of every repository fixture x 5 contexts", Share: 1,
@@ -168,4 +174,9 @@ func init() {
 				Eval: func(w *fw.W, s, _ string) { evalC07Pred(w, s, "url") }},
 		},
 	})
+}
+
+func init() {
+	c := fw.Lookup("C07")
+	c.Phases = append(c.Phases, htmlExtraPhases(evalC07, true)...)
 }
